@@ -5,7 +5,7 @@
 (* is reported (MISMATCH line) and validation continues with the state      *)
 (* advanced from what the implementation really did.                        *)
 (***************************************************************************)
-EXTENDS Crl, Names, TLC, Json, IOUtils
+EXTENDS Crl, Names, Strings, TLC, Json, IOUtils
 
 Rec == ndJsonDeserialize(IOEnv.TRACE)
 
@@ -44,6 +44,38 @@ ReqCrlEv(ev) ==
         ELSE { <<"C08.decodable", FALSE>>, <<"C04.der_strict", FALSE>> })
   ELSE { <<"C08.no_refusal_otherwise", CrlMustBeRefused(ev.args) \/ ev.args.signerFails \/ ~CrlTimesInScope(ev.args.params)>> }
 
+(* ---- C13: restricted string types ---- *)
+WellFormedBytes(ctor, b) ==
+  IF ctor = "from_utf16be"
+  THEN Len(b) % 2 = 0 /\ \A i \in 1..(Len(b) \div 2) : Unit16Ok(b[2 * i - 1] * 256 + b[2 * i])
+  ELSE Len(b) % 4 = 0 /\ \A i \in 1..(Len(b) \div 4) :
+         b[4 * i - 3] = 0 /\ Unit32Ok(b[4 * i - 2] * 65536 + b[4 * i - 1] * 256 + b[4 * i])
+
+PlaceKind(a) == IF a.where = "dn" THEN a.type
+                ELSE IF a.where = "san-rfc822" THEN "san-rfc822" ELSE IF a.where = "san-dns" THEN "san-dns" ELSE "san-uri"
+
+ReqStringEv(ev) ==
+  IF ev.out # "Ok" THEN { <<"C13.accepted_value_serialises", ev.op # "StringPlace">>, <<"C13.constructor_total", ev.op = "StringPlace">> }
+  ELSE CASE ev.op = "StringRuns" ->
+              { <<"C13.all_values_judged", Tiles(ev.args.dom, ev.obs.runs)>>,
+                <<"C13.accept_iff_in_alphabet", \A i \in DOMAIN ev.obs.runs : RunAgrees(ev.args.dom, ev.args.type, ev.obs.runs[i])>>,
+                <<"C13.transfer_encoding_eq", \A i \in DOMAIN ev.obs.runs : \A j \in DOMAIN ev.obs.runs[i].samples :
+                     LET sm == ev.obs.runs[i].samples[j]
+                     IN sm.b = (IF ev.args.dom = "scalar" THEN Enc(ev.args.type, sm.c)
+                                ELSE IF ev.args.dom = "u16" THEN <<sm.c \div 256, sm.c % 256>> ELSE Utf32(sm.c))>>,
+                <<"C13.accepted_runs_are_sampled", \A i \in DOMAIN ev.obs.runs : ev.obs.runs[i].acc => Len(ev.obs.runs[i].samples) >= 1>> }
+         [] ev.op = "StringBytes" ->
+              { <<"C13.byte_ctor_accepts_iff_well_formed", ev.obs.acc = WellFormedBytes(ev.args.ctor, ev.args.bytes)>>,
+                <<"C13.byte_ctor_stores_input", ev.obs.acc => ev.obs.stored = ev.args.bytes>> }
+         [] ev.op = "StringMulti" ->
+              { <<"C13.accept_iff_every_char_in_alphabet", ev.obs.acc = (\A i \in DOMAIN ev.args.cps : InAlphabet(ev.args.type, ev.args.cps[i]))>>,
+                <<"C13.transfer_encoding_eq", ev.obs.acc => ev.obs.stored = EncAll(ev.args.type, ev.args.cps)>> }
+         [] ev.op = "StringPlace" ->
+              { <<"C13.placed_tag_eq", ev.obs.kind = PlaceKind(ev.args)>>,
+                <<"C13.placed_text_eq", ev.obs.cps = ev.args.cps>>,
+                <<"C04.der_strict", ev.obs.derStrict = <<>> >> }
+         [] OTHER -> {}
+
 (* ---- C20: the distinguished-name container, judged against the specification's own state ---- *)
 NameOf(h) == IF h \in DOMAIN names THEN names[h] ELSE <<>>
 
@@ -75,6 +107,7 @@ ReqOf(ev) ==
   (CASE ev.op = "Cert" -> ReqCertEv(ev)
      [] ev.op = "Csr" -> ReqCsrEv(ev)
      [] ev.op = "Crl" -> ReqCrlEv(ev)
+     [] ev.op \in {"StringRuns", "StringBytes", "StringMulti", "StringPlace"} -> ReqStringEv(ev)
      [] ev.op \in {"DnPush", "DnRemove", "DnEq", "DnEncode"} -> ReqDnEv(ev)
      [] OTHER -> {})
 
